@@ -458,6 +458,7 @@ STATEMENTS = {
 	'ast_rt_to_from': 'toAst (fromAst t) = t for every well-shaped tuple tree t',
 	'ast_rt_shipped': 'gram_rules() and py_rules() are canonical',
 	'fixed_gram': 'the model engine with the built-in rules on the real token list of gram.lark yields the literal of gram_rules.py, and from_ast of it is gram_rules() (kernel-evaluated)',
+	'fixed_gram_text': 'the same starting from the embedded TEXT of gram.lark: the C13 lexer model with the gram token definition yields the strings and source maps of that token list (kernel-evaluated); only the regexp class per token is not recomputed in Lean',
 	'fixed_py': 'compiling the real token list of py_gram.lark yields, through render_rules, exactly the text of py_rules.py; its tree equals the literal of py_rules.py up to the renderer\'s \\\' fix-up; from_ast of the literal is py_rules() (kernel-evaluated)',
 	'text_rt_partial': 'the text-level law holds for every canonical g whose printout the engine parses into toAst g (the hypothesis the rules-text correspondence checks on the real code)',
 	'text_rt_f7_regression': 'after fix 87005c8 x := a (b | c) and x := a b | c print differently (the repaired finding F7)',
@@ -485,7 +486,7 @@ def run(ctx: Ctx) -> int:
 			'generated terminals are single tokens of the meta-grammar (strings without a double quote, regexps not starting with a slash)',
 			'gram_rules.py is compared after removing its hand-written docstring and the extra newline at the end of the file',
 		],
-		trusted=['the gram tokenizer: the model engine is fed the REAL token lists (Generated/RulesData.lean); C13 covers the lexer',
+		trusted=['the gram tokenizer for py_gram.lark: the model engine is fed its REAL token list (kernel lexing of that 5 kB text exceeds the kernel time limit; for gram.lark and the round-trip witnesses the C13 lexer model is evaluated in the kernel and agrees token by token)',
 			'Python literal evaluation of the rendered module text (\\\\ → \\, \\\' → \') when relating py_rules.py\'s text to its evaluated literal',
 			'regular expressions: evaluated by the real `re`, entering the model as token classes'])
 
